@@ -945,6 +945,13 @@ def check(ctx):
     # (= C09.DIR-ORDER)
     from . import c09
     ctx.borrow('C10.REAPPLY', c09.check_dirs, only=['C09.DIR-ORDER'])
+    # what a load remembers between calls (file cache, directory times) is
+    # the enforcer's own: module-level state would let one enforcer's load
+    # make another one skip its reload (= C12.GLOBALS)
+    from . import c12 as _c12
+    _region = dict(ctx.prog.region(ENF + '.load_rules', ENF + '.enforce'))
+    ctx.borrow('C10.STALE', _c12.check_globals, _region,
+               only=['C12.GLOBALS'])
     # C10.FIND: a policy file created after start-up is found (= C09.FIND)
     nf, no = len(ctx.findings), len(ctx.obligations)
     c09.check_find(ctx)
